@@ -1,5 +1,6 @@
 import Urandom.Model.Block
 import Urandom.Model.Word
+import Urandom.Model.Standard
 import Urandom.Driver.Parse
 /- Driver for the `chacha` (buffered generator under op histories) and `slpblock` (one raw batch) streams. -/
 namespace Urandom.Driver
@@ -17,14 +18,39 @@ def showState (s : State) : String :=
 
 abbrev CS := BS State (BitVec 8)
 
+/-- the next `k` 64-bit draws of the block generator, as scripted words for the distribution models -/
+def drawWords (N : Nat) : Nat → CS → List (BitVec 64) × CS
+  | 0, s => ([], s)
+  | k + 1, s =>
+    let (b, s') := nextN (chachaCore N) 8 s
+    let (ws, s'') := drawWords N k s'
+    (BitVec.ofNat 64 (leNat b) :: ws, s'')
+
+/-- a distribution of the scripted-word model run on the generator's own 64-bit draws: the result and the generator after exactly the words it consumed -/
+def onDraws {α : Type} (N : Nat) (s : CS) (d : Draw α) : Option (α × CS) :=
+  let (ws, _) := drawWords N 48 s
+  match d ws with
+  | none => none
+  | some (a, rest) => some (a, (drawWords N (ws.length - rest.length) s).2)
+
 /-- one op of the `chacha` stream on the byte instance -/
 def chachaOp (N : Nat) (s : CS) (op : String) : Option (String × CS) :=
   let C := chachaCore N
   match op.splitOn ":" with
   | ["u32"] => let (b, s') := nextN C 4 s; some (toString (leNat b), s')
   | ["u64"] => let (b, s') := nextN C 8 s; some (toString (leNat b), s')
+  -- `Random::next::<T>()` for the word-sized integer types (StandardUniform: a cast of one `next_u32` / `next_u64`, Props/C13T)
+  | ["n32"] => let (b, s') := nextN C 4 s; some (toString (leNat b), s')
+  | ["ni32"] => let (b, s') := nextN C 4 s; some (toString (leNat b), s')
+  | ["n64"] => let (b, s') := nextN C 8 s; some (toString (leNat b), s')
+  | ["ni64"] => let (b, s') := nextN C 8 s; some (toString (leNat b), s')
+  | ["nsz"] => let (b, s') := nextN C 8 s; some (toString (leNat b), s')
   | ["f32"] => let (b, s') := nextN C 4 s; some ("f:" ++ toString (rngF32 (BitVec.ofNat 32 (leNat b))).toNat, s')
   | ["f64"] => let (b, s') := nextN C 8 s; some ("f:" ++ toString (rngF64 (BitVec.ofNat 64 (leNat b))).toNat, s')
+  -- distribution entry points drawing 64-bit words: `chance(p)` (p as f64 bits), `float01()`, `index(n)`
+  | ["chance", p] => p.toNat?.bind fun p => (onDraws N s (bernoulli p)).map fun (b, s') => (if b then "1" else "0", s')
+  | ["f01"] => (onDraws N s Float01.sample64).map fun (x, s') => ("z:" ++ toString x, s')
+  | ["idx", n] => n.toNat?.bind fun n => (onDraws N s (index n)).map fun (k, s') => (toString k, s')
   | ["jump"] => some ("-", Block.jump C s)
   | ["clone"] =>
       let (a, c) := nextN C 8 s
